@@ -44,7 +44,7 @@ P = {
          'correspondence numpy == torch == model over the shared surface (enumerated, unmatched names reported). Open port findings listed in known_findings.json.',
          'regenerated-formula equalities in Coq + three-way differential correspondence', '5/C13'),
  'C14': ('Theorems for EVERY program interleaving gates and measurement layers, every state and coin schedule: the layered Circuit computes the instruction-by-instruction trajectory; measurement layers '
-         'stay in program order and no gate crosses one; one +-1 result per measured qubit in order; shape and rank bound preserved; one post-selection on a pure state returns 1+<O> (Born) and projects or leaves unchanged accordingly. Repeated post-selection and backward: model tied by correspondence + dense trajectory oracle.',
+         'stay in program order and no gate crosses one; one +-1 result per measured qubit in order; shape and rank bound preserved; one post-selection on a pure state returns 1+<O> (Born) and projects or leaves unchanged accordingly. Backward: pure states stay pure and valid, a layer accepts its own record, and the record of EVERY run is accepted by the backward pass from the final state (theorems); values of backward states compared by correspondence + dense adjoint-trajectory oracle, incl. re-run histories.',
          'Coq proof (segment-wise generalisation of the take lemma) + correspondence with recovered coins and dense trajectory / adjoint oracle', '5/C14'),
  'C15': ('Theorems over exact Gaussian rationals: sums, scalar multiples, negation, products (batch_dot) denote the matrix operations in the ket semantics; numbers add multiples of I; reduce merges exactly, '
          'drops only terms below tolerance, leaves distinct strings with zero phases; trace semantics. trace() phase defect refuted in Coq and reported as known finding. PARTIAL: IEEE rounding not modelled.',
@@ -56,8 +56,8 @@ P = {
          'nothing outside the receiver; the copy table regenerated from source shows every array attribute passed fresh and well bound. numpy/torch aliasing semantics are modelled; validated dynamically.',
          'Coq proof over a heap model + source-extracted copy tables + dynamic shares_memory / snapshot validation', '5/C17'),
  'C18': ('Theorems for all N: pauli_diagonalize1 (<=2 rotations) maps every non-identity string to Z on the target qubit and never touches trivial qubits (causality), pauli_diagonalize2 for pairs; the layered circuit diagonalize(Pauli) returns maps the operator to +-Z on the target (causal variant: acts on later qubits only); '
-         'signs by C02. SBRG: PARTIAL, float coefficients not modelled; diagonal form and exactness/spectrum checked by correspondence.',
-         'Coq proof (case analysis following the code) + exhaustive N<=3 correspondence + SBRG dense spectrum oracle', '5/C18'),
+         'signs by C02. SBRG: the whole loop is modelled over exact Gaussian rationals and proved, for every Hamiltonian, N and tolerance, to return only I/Z strings, a stepwise causal circuit, and on commuting Hamiltonians (exact arithmetic) the input conjugated by the circuit as matrices; the pre-repair loop is refuted in Coq (finding F15, fixed). PARTIAL only for floating-point rounding of coefficients (correspondence: strings, order, circuit exact; coefficients to 1e-9).',
+         'Coq proof (case analysis following the code; loop invariants for SBRG) + exhaustive N<=3 correspondence + SBRG model correspondence and dense spectrum oracle', '5/C18'),
  'C19': ('Theorems: sampled operators are group elements with expectation +1; selection -> element injective; binary_repr enumerates; density_matrix lists every group element exactly once; snapshots valid. '
          'PARTIAL: uniformity of randint assumed.',
          'Coq proof + correspondence with re-drawn selection matrices and dense rho', '5/C19'),
@@ -68,7 +68,7 @@ P = {
          'map is the inverse of the compiled forward map and both orders round-trip; circuits built by take satisfy the layer invariant.',
          'Coq proof + correspondence (Pauli lists with all phases, signed mixed states, both orders, compiled and uncompiled)', '5/C10'),
  'C11': ('Finite statements decided by computation over tables regenerated from circuit.py on every run: H,S,X,Y,Z,CNOT (both orientations) equal the textbook conjugation tables, are valid with '
-         'two-sided inverses; the 24 C(k) are valid, pairwise different (276 pairs), closed under compose (576) and inverse (24); bad indices / arities rejected. Placement anywhere is C03 (embed).',
+         'two-sided inverses; the 24 C(k) are valid, pairwise different (276 pairs), closed under compose (576) and inverse (24); bad indices / arities rejected; each table is conjugation by the textbook operator as a matrix identity in the ket semantics (X+Z, 1+iZ, X, Y, Z, 1+Z_c+X_t-Z_c X_t; all 24 C(k) as words of length <= 6 in H,S). Placement anywhere is C03 (embed).',
          'vm_compute over the complete finite domain (tables regenerated from source) + correspondence with the textbook 2x2/4x4 unitaries for all placements N<=3', '5/C11'),
  'C20': ('Theorems for all N and all four phases: parse(repr P) = P, parse(tokenize P) = P, letters/codes/dict/prefix forms agree; dispatch, repr and token '
          'tables regenerated from source every run; indexing laws; correspondence np+torch exhaustive N<=3.',
